@@ -32,7 +32,42 @@ SKEL_OUT = os.path.join(vlib.THEORIES, "Gen", "LockSkeletons.v")
 # ---------------------------------------------------------------------------
 # clang AST access
 # ---------------------------------------------------------------------------
+_TREE_KEY = [None]
+
+
+def tree_key():
+    """hash of every .c/.h file of the library: the key of the on-disk AST cache"""
+    if _TREE_KEY[0] is None:
+        import hashlib
+        h = hashlib.sha256()
+        for top in ("rtrlib", "third-party"):
+            for d, _, fs in sorted(os.walk(os.path.join(REPO, top))):
+                for f in sorted(fs):
+                    if f.endswith((".c", ".h")):
+                        h.update(os.path.join(d, f)[len(REPO):].encode())
+                        h.update(open(os.path.join(d, f), "rb").read())
+        _TREE_KEY[0] = h.hexdigest()[:24]
+    return _TREE_KEY[0]
+
+
 def ast_docs(cfile, filt):
+    cdir = os.path.join(vlib.BUILD, "astcache", tree_key())
+    cpath = os.path.join(cdir, re.sub(r"[^A-Za-z0-9_.]", "_", cfile + "--" + filt) + ".json")
+    if os.path.exists(cpath):
+        try:
+            return json.load(open(cpath))
+        except ValueError:
+            pass
+    docs = ast_docs_uncached(cfile, filt)
+    os.makedirs(cdir, exist_ok=True)
+    tmp = cpath + ".%d" % os.getpid()
+    with open(tmp, "w") as f:
+        json.dump(docs, f)
+    os.replace(tmp, cpath)
+    return docs
+
+
+def ast_docs_uncached(cfile, filt):
     cmd = ["clang", "-fsyntax-only", "-std=gnu99", "-I" + REPO, "-I" + os.path.join(REPO, "third-party"),
            "-I" + vlib.ensure_config_h(), "-Xclang", "-ast-dump=json", "-Xclang", "-ast-dump-filter=" + filt,
            os.path.join(REPO, cfile)]
@@ -1635,6 +1670,110 @@ def count_calls(node, names):
     return n
 
 
+# functions that only compute on their arguments (bodies not looked at)
+PURE_CALLS = {"memcmp", "strlen", "lrtr_dbg", "__assert_fail", "abort", "__builtin_expect", "tommy_ilog2_u32",
+              "tommy_cast", "lrtr_ip_addr_get_bits", "lrtr_ip_addr_equal", "lrtr_ip_addr_is_zero",
+              "lrtr_ipv4_get_bits", "lrtr_ipv6_get_bits", "lrtr_ipv4_addr_equal", "lrtr_ipv6_addr_equal",
+              "lrtr_get_bits", "lrtr_ip_addr_is_equal"}
+HELPER_DEF_FILES = ["rtrlib/pfx/trie/trie-pfx.c", "rtrlib/spki/hashtable/ht-spkitable.c", "rtrlib/pfx/trie/trie.c",
+                    "third-party/tommyds/tommyhashlin.c", "third-party/tommyds/tommylist.c"]
+_HELPER_DEFS = {}
+
+
+def helper_def(name):
+    if name not in _HELPER_DEFS:
+        d = None
+        for f in HELPER_DEF_FILES:
+            try:
+                d = find_def(f, name)
+            except Exception:  # noqa: BLE001
+                d = None
+            if d is not None:
+                break
+        _HELPER_DEFS[name] = d
+    return _HELPER_DEFS[name]
+
+
+def count_shared_stores(name, seen=None):
+    """(number of stores a function performs into memory it did not create, names of callees whose bodies are unknown).
+    A store is an assignment / ++ / -- whose target is reached through a pointer, except through a parameter that
+    points to a scalar (an out-parameter such as `unsigned int *lvl`).  Callees are followed; indirect calls are
+    the callback events of the skeletons and are not counted here."""
+    seen = seen if seen is not None else set()
+    if name in seen:
+        return 0, []
+    seen.add(name)
+    d = helper_def(name)
+    if d is None:
+        return 0, [name]
+    scalar_params, locals_ = set(), set()
+    for c in inner(d):
+        if c.get("kind") == "ParmVarDecl":
+            q = (c.get("type") or {}).get("desugaredQualType") or c["type"]["qualType"]
+            if is_ptr_type(q) and (int_type(pointee(q)) or int_type(pointee(c["type"]["qualType"]))):
+                scalar_params.add(c.get("id"))
+
+    def root(n):
+        k = n.get("kind")
+        if k in ("ParenExpr", "ImplicitCastExpr", "CStyleCastExpr"):
+            return root(inner(n)[-1])
+        if k in ("MemberExpr", "ArraySubscriptExpr"):
+            return root(inner(n)[0])
+        if k == "UnaryOperator" and n.get("opcode") in ("*", "&"):
+            return root(inner(n)[0])
+        if k == "BinaryOperator" and n.get("opcode") in ("+", "-"):
+            return root(inner(n)[0])
+        return n
+
+    def via_pointer(n):
+        k = n.get("kind")
+        if k == "ParenExpr":
+            return via_pointer(inner(n)[0])
+        if k == "MemberExpr":
+            return bool(n.get("isArrow")) or via_pointer(inner(n)[0])
+        if k == "UnaryOperator" and n.get("opcode") == "*":
+            return True
+        if k == "ArraySubscriptExpr":
+            b = inner(n)[0]
+            while b.get("kind") in ("ParenExpr",):
+                b = inner(b)[0]
+            # a[i] on a local array decays; on a pointer it is a dereference
+            if b.get("kind") == "ImplicitCastExpr" and b.get("castKind") == "ArrayToPointerDecay":
+                return via_pointer(inner(b)[0])
+            return True
+        return False
+
+    stores, unknown = [0], []
+
+    def walk(n):
+        k = n.get("kind")
+        tgt = None
+        if k in ("BinaryOperator", "CompoundAssignOperator") and n.get("opcode", "").endswith("=") \
+                and n["opcode"] not in ("==", "!=", "<=", ">="):
+            tgt = inner(n)[0]
+        if k == "UnaryOperator" and n.get("opcode") in ("++", "--"):
+            tgt = inner(n)[0]
+        if tgt is not None and via_pointer(tgt):
+            r = root(tgt)
+            if not (r.get("kind") == "DeclRefExpr" and r.get("referencedDecl", {}).get("id") in scalar_params):
+                stores[0] += 1
+        if k == "CallExpr":
+            f = inner(n)[0] if inner(n) else {}
+            while f.get("kind") in ("ImplicitCastExpr", "ParenExpr", "CStyleCastExpr"):
+                f = inner(f)[-1]
+            rd = f.get("referencedDecl", {}) if f.get("kind") == "DeclRefExpr" else {}
+            if rd.get("kind") == "FunctionDecl":
+                cn = rd.get("name")
+                if cn not in PURE_CALLS:
+                    s2, u2 = count_shared_stores(cn, seen)
+                    stores[0] += s2
+                    unknown.extend(u2)
+        for c in inner(n):
+            walk(c)
+    walk(d)
+    return stores[0], unknown
+
+
 def public_functions(cfile):
     src = open(os.path.join(REPO, cfile)).read()
     names = re.findall(r"^(?:RTRLIB_EXPORT\s+)?(?:inline\s+)?(?:const\s+)?(?:int|void|bool|struct\s+\w+\s*\*?)\s*\**\s*(\w+)\s*\([^;{]*\)\s*\{", src, re.M)
@@ -1809,6 +1948,19 @@ def emit_skeletons(w, problems):
             if d is None:
                 continue
             helper_locks.append((h, count_calls(d, set(LOCK_CALLS))))
+    # helpers classified as readers: stores they (or their callees) perform into memory they were handed
+    reader_stores = []
+    for h in sorted(HELPER_RW):
+        spec = HELPER_RW[h]
+        mode = spec if isinstance(spec, str) else spec[0]
+        if mode != "R":
+            continue
+        n, unk = count_shared_stores(h)
+        reader_stores.append((h, n, sorted(set(unk))))
+    w("(* helpers counted as a READ of the table: (stores through pointers found in their bodies and in their callees',")
+    w("   callees whose bodies could not be found) *)")
+    w("Definition reader_helper_stores : list (string * nat * list string) :=\n  [%s].\n" % ";\n   ".join(
+        "(%s, %d, [%s])" % (coq_string(h), n, "; ".join(coq_string(u) for u in unk)) for h, n, unk in reader_stores))
     w("(* helpers counted as a single access in the programs above, with the number of lock calls in their own bodies *)")
     w("Definition helper_lock_calls : list (string * nat) :=\n  [%s].\n" % "; ".join(
         "(%s, %d)" % (coq_string(h), n) for h, n in helper_locks))
